@@ -24,6 +24,10 @@ func init() {
 			a.macKeyByteWipes("W.mac-wipe")
 			a.c16Whitespace()
 			a.heartbeatOrder("V.heartbeat-order")
+			a.tlvLoopComplete("S.tlv-loop")
+			a.tlvParseLoopComplete("S.tlv-loop")
+			a.noSessionKeyCache("S.rotation")
+			a.secretSizes("K.secret-size")
 			// messages the specification's sender produces are accepted: the stored peer values that later messages are checked
 			// against (the peer's DH value of the exchange, the peer's counter) move only with verified/authentic messages
 			a.theirDHWriters()
